@@ -48,7 +48,7 @@ def payload_shape(path_result, ops):
                 tv = erase_opcode(tv, ops)
             items.append((k, tv))
         return tuple(items)
-    return tform(req)
+    return erase_opcode(tform(req), ops)
 
 
 def r1(ctx):
